@@ -398,10 +398,29 @@ func ruleC17(c *Ctx) {
 	shifts := shiftSites(S)
 	var testLoops []*ssa.BasicBlock // headers of loops iterating over tests (range over bans / functions)
 	nShift := 0
+	slideBlocks := map[*ssa.BasicBlock]bool{}
 	for _, sh := range shifts {
 		if sh == sr[0] {
 			continue
 		}
+		// a window SLIDE is a shift taken because a test of the current window said so; other additions in the
+		// same web (the per-barcode stride advance) are not slides
+		guarded := false
+		for _, a := range pathCond(tb, cb.Blocks[0], sh.Block()).atoms() {
+			if a.Atom.contains(func(x *Term) bool {
+				sl, ok := x.V.(*ssa.Slice)
+				return ok && x.Op == "slice" && tb.T(sl.X).String() == deb
+			}) {
+				guarded = true
+			}
+		}
+		if !guarded {
+			continue
+		}
+		if slideBlocks[sh.Block()] {
+			continue // several additions in one block (start++, nextStart += stride) are one slide
+		}
+		slideBlocks[sh.Block()] = true
 		nShift++
 		blk := sh.Block()
 		hdr := enclosingLoopHeader(blk)
